@@ -304,10 +304,24 @@ def val_clean(o):
 
 
 def analyse(case, o):
-    """returns (coq check term, coq known term, token terms, oracle messages [(msg, [slugs])], summary key)"""
+    """returns (one Coq term `(checks, known flags, token checks)`, oracle messages [(msg, [slugs])], summary key)"""
     pos, s = case["pos"], case["s"]
     pad, alg = case["pad"], case["alg"]
     msgs, toks = [], []
+    lits = {}
+
+    def coq_str(x):
+        """long literals are bound once per case (parsing a 5 kB literal costs more than evaluating the check)"""
+        raw = x.encode("utf-8") if isinstance(x, str) else bytes(x)
+        if len(raw) < 48:
+            return common.coq_str(raw)
+        if raw not in lits:
+            lits[raw] = "x%d" % len(lits)
+        return lits[raw]
+
+    def pack(chk, kn):
+        pre = "".join("let %s := %s in " % (n, common.coq_str(v)) for v, n in lits.items())
+        return pre + "(%s, %s, ([%s] : list bool))" % (chk, kn, "; ".join(toks))
     vn = vname(pad)
     gso = o.get("gso") or {}
     staged_ok = ok(gso) and o.get("list_staged_ok", False)
@@ -356,7 +370,7 @@ def analyse(case, o):
                                           coq_bool(later), coq_bool(vclean))
         kn = "known_id %s" % coq_str(s)
         key = (pos, o["new_ok"], later, vclean)
-        return chk, kn, toks, msgs, key
+        return pack(chk, kn), msgs, key
 
     if pos == "cdir":
         lp = "d/f.txt"
@@ -396,7 +410,7 @@ def analyse(case, o):
                                                       coq_bool(cp_ok), coq_bool(staged_ok), coq_bool(commit_ok), coq_bool(vclean))
         kn = "known_cdir %s %s %s %d" % (coq_str(s), coq_str(alg), coq_str(lp), pad)
         key = (pos, o["new_ok"], cp_ok, staged_ok, commit_ok, vclean)
-        return chk, kn, toks, msgs, key
+        return pack(chk, kn), msgs, key
 
     if pos in ("lpath_dst", "lpath_src"):
         dst, srcname = o["dst"], o["srcname"]
@@ -444,7 +458,7 @@ def analyse(case, o):
                                                        coq_opt(stored, coq_str), coq_bool(staged_ok), coq_bool(commit_ok), coq_bool(vclean))
         kn = "known_lpath %s %s" % (coq_str(dst), coq_str(srcname))
         key = (pos, cp_ok, staged_ok, commit_ok, vclean)
-        return chk, kn, toks, msgs, key
+        return pack(chk, kn), msgs, key
 
     # commit metadata
     name, addr, msg = o["name"], o["addr"], o["msg"]
@@ -474,7 +488,7 @@ def analyse(case, o):
     chk = "check_meta %s %s %s %s %s %s" % (oc(name), oc(addr), oc(msg), coq_bool(commit_ok), coq_bool(read_ok), coq_bool(vclean))
     kn = "known_meta %s %s %s" % (oc(name), oc(addr), oc(msg))
     key = (pos, commit_ok, read_ok, vclean)
-    return chk, kn, toks, msgs, key
+    return pack(chk, kn), msgs, key
 
 
 KNOWN_FLAGS = {
@@ -486,14 +500,13 @@ KNOWN_FLAGS = {
 }
 
 
-def parse_bools(v):
-    v = v.strip()
-    if not (v.startswith("[") and v.endswith("]")):
-        return None
-    body = v[1:-1].strip()
-    if not body:
-        return []
-    return [x.strip() == "true" for x in body.split(";")]
+def parse_triple(v):
+    """printed value `([b; ..], [b; ..], [b; ..])` -> three lists of bool (None, None, None when malformed)"""
+    import re
+    groups = re.findall(r"\[([^\]]*)\]", v)
+    if len(groups) != 3:
+        return None, None, None
+    return tuple([x.strip() == "true" for x in g.split(";") if x.strip()] for g in groups)
 
 
 # --------------------------------------------------------------------------- decoder correspondence
@@ -569,7 +582,16 @@ def run_vh_lpath(vh, tokens):
 # --------------------------------------------------------------------------- main
 
 def run(ctx):
+    import time
+    tm, t_last = {}, [time.time()]
+
+    def lap(name):
+        now = time.time()
+        tm[name] = round(now - t_last[0], 1)
+        t_last[0] = now
+
     proof = common.proof_stage(ctx)
+    lap("proof_stage")
     vh = common.build_harness()
     okb, log = common.coq_make(["theories/Corr/CheckJson.vo"])
     if not okb:
@@ -592,7 +614,9 @@ def run(ctx):
             obs = "None" if r[0] == "refused" else "(Some %s)" % coq_opt(r[1] if r[0] == "ok" else None, coq_str)
             dterms.append("check_lpath_token %s %s" % (coq_str(t), obs))
             dmeta.append(("serde_json", t, r))
+    lap("build+tokens_real")
     dres = common.coq_eval("c10d", imports, dterms)
+    lap("tokens_coq")
     dstats = {"tokens": len(tokens), "python_cmp": 0, "serde_cmp": 0, "accepted": 0, "refused": 0}
     for (who, t, r), v in zip(dmeta, dres):
         dstats["python_cmp" if who == "python" else "serde_cmp"] += 1
@@ -608,28 +632,25 @@ def run(ctx):
     strings = gen_strings(ctx)
     cases = gen_cases(ctx, strings)
     obs = run_cases(ctx, cases)
+    lap("cases_real")
 
-    terms, spans, metas = [], [], []
+    terms, metas = [], []
     for c in cases:
-        o = obs[c["idx"]]
-        chk, kn, toks, msgs, key = analyse(c, o)
-        start = len(terms)
-        terms.append(chk)
-        terms.append(kn)
-        terms.extend(toks)
-        spans.append((start, len(toks)))
+        term, msgs, key = analyse(c, obs[c["idx"]])
+        terms.append(term)
         metas.append((msgs, key))
+    lap("cases_analyse")
     res = common.coq_eval("c10", imports, terms, batch=150)
+    lap("cases_coq")
 
     stats = {"cases": len(cases), "strings": len(strings), "by_position": {}, "by_label": {},
              "accepted": 0, "rejected": 0, "unreadable_after_accept": 0, "token_checks": 0,
              "needs_escape": 0, "non_ascii": 0, "over_255_bytes": 0}
-    for c, (start, ntok), (msgs, key) in zip(cases, spans, metas):
+    for c, value, (msgs, key) in zip(cases, res, metas):
         o = obs[c["idx"]]
         pos, s = c["pos"], c["s"]
-        checks = parse_bools(res[start])
-        flags = parse_bools(res[start + 1])
-        tokres = res[start + 2:start + 2 + ntok]
+        checks, flags, tokres = parse_triple(value)
+        ntok = len(tokres or [])
         stats["by_position"][pos] = stats["by_position"].get(pos, 0) + 1
         stats["by_label"][c["label"]] = stats["by_label"].get(c["label"], 0) + 1
         stats["token_checks"] += ntok
@@ -662,21 +683,18 @@ def run(ctx):
             ctx.violation("impl-violation", {"input": inp, "observed": {"steps": o["steps"]}, "expected": m})
         if violated:
             continue
-        if checks is None or flags is None or not all(checks):
+        if checks is None or not all(checks):
+            # also reached when a known class predicts a failure that no longer happens (code changed): the model must follow
             common.corr_break(ctx, "Corr.CheckJson %s case (Model/Json.v vs repo.rs / serde.rs / validate)" % pos,
-                              {"input": inp, "observed": {"steps": o["steps"], "key": list(key)}, "model_checks": res[start], "known_flags": res[start + 1]})
-        for t in tokres:
-            if t != "true":
-                common.corr_break(ctx, "Corr.CheckJson check_token (serde_escape vs the token in inventory.json)",
-                                  {"input": inp, "observed": {"steps": o["steps"]}})
-                break
-        # a known class that predicts a failure which did not happen means the code changed (fixed?): the model must follow
-        if flags is not None and checks is not None and all(checks):
-            pass
+                              {"input": inp, "observed": {"steps": o["steps"], "key": list(key)}, "model_value": value})
+        elif not all(tokres):
+            common.corr_break(ctx, "Corr.CheckJson check_token (serde_escape vs the token in inventory.json)",
+                              {"input": inp, "observed": {"steps": o["steps"]}, "model_value": value})
 
     ctx.coverage["traces_validated_against_impl"] = len(cases) + len(dterms)
     ctx.coverage["distribution"] = stats
     ctx.coverage["decoder_correspondence"] = dstats
+    ctx.coverage["timing_s"] = tm
     ctx.assumptions.append("strings reach the library as Rust &str (valid UTF-8); invalid UTF-8 is only exercised on the decoder model against Python")
     ctx.assumptions.append("file-system limits (no NUL, 255 bytes per name) are modelled as fs_name_ok; total path lengths are kept below PATH_MAX by the generator")
     ctx.assumptions.append("clap's argument decoding and chrono's timestamp grammar are outside the model")
